@@ -339,7 +339,7 @@ func (h *H) c35Data() []byte {
 
 func streamC35(h *H) {
 	defer feature.Flag.Apply("backend-error-redesign=true", func(string) {})
-	n := h.N(2400, 60000)
+	n := h.N(1500, 30000)
 	maxLen := 4
 	if h.Thorough() {
 		maxLen = 7
